@@ -32,7 +32,7 @@ COMPONENTS = {
     'stub': ['user objective (run family)', 'PRNG seam', 'joblib', 'time.time', 'uuid1'],
 }
 PROBES_EXPECTED = ['archive_family', 'run_family', 'reorder', 'duplicate', 'evicts_two_or_more', 'duplicate_offer_rejected',
-                   'dominated_offer_rejected', 'infeasible_offers', 'truncate_checked', 'eps_comparator', 'pareto_comparator']
+                   'dominated_offer_rejected', 'infeasible_offers', 'real_valued_violation_degree', 'truncate_checked', 'eps_comparator', 'pareto_comparator']
 
 
 class _Sol:
@@ -108,9 +108,17 @@ def _archive(D):
     offers = []
     for i in range(k):
         cs = [0.25 * (D.dec('work', ('c', i, j), span) - span // 2) for j in range(m)]
-        mk = bool(infeas and D.dec('work', ('mk', i), 3) == 1)
+        mk = False
+        if infeas:
+            # markers as the library writes them (False/True) and as violation degrees of either sign (the comparators
+            # rank by |degree|, 0 = feasible)
+            # (no two degrees of equal magnitude and opposite sign: the sign carries no meaning, so whether -0.1 and 0.1
+            #  with identical objectives are "the same cost vector" is undefined)
+            mk = (False, True, False, -0.1, -0.3, 0.5, 0.2)[D.dec('work', ('mk', i), 7)]
         if mk:
             ctx.probe('infeasible_offers')
+        if isinstance(mk, float):
+            ctx.probe('real_valued_violation_degree')
         cs.append(mk)
         fv = D.dec('work', ('feat', i), 8)
         offers.append(_Sol(cs, i, float(fv) if fv < 6 else math.inf))     # crowding distances are often infinite
